@@ -1,4 +1,5 @@
 import ApolloModel.Proofs.ParserWhole
+import ApolloModel.Proofs.ParserType5
 /-
 C07 — Standalone type and field-set parsing consume the whole input.
 Parser model of C01 with the repaired entry points (`expect_end_of_input`).
@@ -13,9 +14,10 @@ theorem standalone_whole_input (e : Entry) (he : e = .type ∨ e = .selectionSet
     (parse e none rl src).leftover = [] :=
   Parse.standalone_whole_input e he rl src root h herr
 
-/-- PARTIAL: what remains to be a full proof of the property is that the consumed tokens form
-    exactly one type / one selection set (grammar-level acceptance, see C05); that half is decided
-    by the harness against an independent recogniser over all prefix/construct/suffix combinations. -/
+/-- PARTIAL: for `parse_selection_set` what remains is that the consumed tokens form exactly one selection
+    set (decided by the harness against an independent recogniser); for `parse_type` that half is now the
+    theorem `type_accept_sound` below.  The statement kept here is freedom from the two model aborts
+    (fuel / progress assertion), see C01. -/
 def whole_input_is_one_construct_statement : Prop :=
   ∀ (rl : Nat) (src : Parse.Str), (parse .type none rl src).errors = [] → ∃ root, (parse .type none rl src).outcome = .tree root
 
@@ -24,5 +26,55 @@ example : (parse .type none 500 ['A', ' ', ']', ']', ' ', 'x']).errors ≠ [] :=
 example : (parse .selectionSet none 500 ['a', ' ', '}', ' ', 'b']).errors ≠ [] := by decide +kernel
 example : (parse .type none 500 ['[', 'A', '!', ']', '!', ' ']).errors = [] := by decide +kernel
 example : (parse .selectionSet none 500 ['{', 'a', '}']).errors = [] := by decide +kernel
+
+/-! ### `parse_type`: the whole input is ONE type of the grammar (growth) -/
+
+/-- **Acceptance is sound.**  `Parser::parse_type` without token limit, any recursion limit, any source text:
+    if the parse ends with a tree and reports no error, then the source has no lexer error and its
+    significant tokens (whitespace, comments, commas removed; `srcToks` is the parser's token queue after
+    lexing) are exactly `tTy t` for some type reference `t` of the grammar
+    `Type : NamedType | [Type] | Type!` (unbounded nesting), followed by the end-of-input token.
+    Proved by induction on the fuel of `ty.rs::parse` with an invariant relating the tokens consumed so far
+    to the queue (Proofs/ParserType1–5). -/
+theorem type_accept_sound (rl : Nat) (src : Parse.Str) (root : Elem)
+    (h : (parse .type none rl src).outcome = .tree root) (herr : (parse .type none rl src).errors = []) :
+    LexClean src ∧ ∃ (t : Ast.Ty) (ts : List Tok) (e : Tok),
+      sig (srcToks src) = ts ++ [e] ∧ e.kind = .eof ∧ ts.map astOf = (Ast.tTy t).map some :=
+  Parse.parseType_sound rl src root h herr
+
+/-- Contrapositive, which is how the known C02 defect (ty.rs drops a token that cannot start a type, e.g.
+    `[!`) stays consistent with acceptance: whenever the significant tokens are NOT one type followed by the
+    end of input, an error is reported — the dropped token never goes unnoticed. -/
+theorem type_reject_non_type (rl : Nat) (src : Parse.Str) (root : Elem)
+    (h : (parse .type none rl src).outcome = .tree root)
+    (hnot : ¬ ∃ (t : Ast.Ty) (ts : List Tok) (e : Tok),
+      sig (srcToks src) = ts ++ [e] ∧ e.kind = .eof ∧ ts.map astOf = (Ast.tTy t).map some) :
+    (parse .type none rl src).errors ≠ [] :=
+  fun herr => hnot (Parse.parseType_sound rl src root h herr).2
+
+/-- list nesting of a type reference -/
+def tyDepth : Ast.Ty → Nat
+  | .named _ | .nonNullNamed _ => 0
+  | .list t | .nonNullList t => tyDepth t + 1
+
+/-- PARTIAL (not proved; evaluated on witnesses below and decided by the harness over all
+    prefix/type/suffix combinations): **completeness** — every type of list depth ≤ the recursion limit, with
+    ignored tokens anywhere except in front, is accepted without error. -/
+def type_accept_complete_statement : Prop :=
+  ∀ (rl : Nat) (src : Parse.Str) (t : Ast.Ty) (ts : List Tok) (e : Tok),
+    LexClean src → sig (srcToks src) = ts ++ [e] → e.kind = .eof → ts.map astOf = (Ast.tTy t).map some →
+    tyDepth t ≤ rl → (∀ x, (srcToks src).head? = some x → isIgnoredKind x.kind = false) →
+    (parse .type none rl src).errors = [] ∧ ∃ root, (parse .type none rl src).outcome = .tree root
+
+-- the C02 defect inputs: a token is dropped, and an error is reported
+example : (parse .type none 500 "[!".toList).dropped = true ∧ (parse .type none 500 "[!".toList).errors ≠ [] := by decide +kernel
+example : (parse .type none 500 "[]".toList).errors ≠ [] := by decide +kernel
+example : (parse .type none 500 "A!!".toList).errors ≠ [] := by decide +kernel
+example : (parse .type none 500 " A".toList).errors ≠ [] := by decide +kernel
+-- completeness witnesses: nesting at the recursion limit, ignored tokens inside and behind
+example : (parse .type none 2 "[[A!]!]!".toList).errors = [] := by decide +kernel
+example : (parse .type none 1 "[[A]]".toList).errors ≠ [] := by decide +kernel
+example : (parse .type none 500 "[ A ,! #c\n ] , !  ".toList).errors = [] := by decide +kernel
+example : (parse .type none 0 "A!".toList).errors = [] := by decide +kernel
 
 end Apollo.C07
